@@ -148,24 +148,9 @@ func (r *Reconciler) commitChange(ctx context.Context, transaction *configapi.Tr
 		}
 
 		if configuration.Committed.Target != transaction.ID.Index {
-			if configuration.Committed.Index != configuration.Committed.Target {
-				return controller.Result{}, false, nil
-			}
-
-			prevTransactionID := configapi.TransactionID{
-				Target: transaction.ID.Target,
-				Index:  configuration.Committed.Index,
-			}
-			prevTransaction, err := r.transactions.Get(ctx, prevTransactionID)
-			if err != nil {
-				if !errors.IsNotFound(err) {
-					return controller.Result{}, false, err
-				}
-			} else if configuration.Committed.Target == configuration.Committed.Index &&
-				prevTransaction.Status.Change.Commit.State <= configapi.TransactionPhaseStatus_IN_PROGRESS {
-				return controller.Result{}, false, nil
-			} else if configuration.Committed.Target < configuration.Committed.Index &&
-				prevTransaction.Status.Rollback.Commit.State <= configapi.TransactionPhaseStatus_IN_PROGRESS {
+			if ok, err := r.isCommitIdle(ctx, transaction, configuration); err != nil {
+				return controller.Result{}, false, err
+			} else if !ok {
 				return controller.Result{}, false, nil
 			}
 
@@ -559,25 +544,10 @@ func (r *Reconciler) commitRollback(ctx context.Context, transaction *configapi.
 			return controller.Result{}, false, nil
 		}
 
-		if configuration.Committed.Target == transaction.ID.Index {
-			if configuration.Committed.Index != configuration.Committed.Target {
-				return controller.Result{}, false, nil
-			}
-
-			prevTransactionID := configapi.TransactionID{
-				Target: transaction.ID.Target,
-				Index:  configuration.Committed.Index,
-			}
-			prevTransaction, err := r.transactions.Get(ctx, prevTransactionID)
-			if err != nil {
-				if !errors.IsNotFound(err) {
-					return controller.Result{}, false, err
-				}
-			} else if configuration.Committed.Index == transaction.ID.Index &&
-				prevTransaction.Status.Change.Commit.State != configapi.TransactionPhaseStatus_COMPLETE {
-				return controller.Result{}, false, nil
-			} else if configuration.Committed.Index > transaction.ID.Index &&
-				prevTransaction.Status.Rollback.Commit.State != configapi.TransactionPhaseStatus_COMPLETE {
+		if configuration.Committed.Target != transaction.Status.Rollback.Index {
+			if ok, err := r.isCommitIdle(ctx, transaction, configuration); err != nil {
+				return controller.Result{}, false, err
+			} else if !ok {
 				return controller.Result{}, false, nil
 			}
 
@@ -880,6 +850,34 @@ func (r *Reconciler) applyRollback(ctx context.Context, transaction *configapi.T
 		}, true, nil
 	}
 	return controller.Result{}, false, nil
+}
+
+// isCommitIdle reports whether no commit stage is in flight, so that the next change or rollback may be started.
+// The last operation was either a change that has been processed (the committed target is its index) or a rollback
+// that is complete (the committed target is the revision it restored), and the record of the transaction it
+// concerned says so too: the configuration and the transaction are written one after the other.
+func (r *Reconciler) isCommitIdle(ctx context.Context, transaction *configapi.Transaction, configuration *configapi.Configuration) (bool, error) {
+	if configuration.Committed.Target != configuration.Committed.Index &&
+		configuration.Committed.Target != configapi.Index(configuration.Committed.Revision) {
+		return false, nil
+	}
+	prevTransactionID := configapi.TransactionID{
+		Target: transaction.ID.Target,
+		Index:  configuration.Committed.Index,
+	}
+	prevTransaction, err := r.transactions.Get(ctx, prevTransactionID)
+	if err != nil {
+		if !errors.IsNotFound(err) {
+			return false, err
+		}
+		return true, nil
+	}
+	if configuration.Committed.Target == configuration.Committed.Index {
+		return prevTransaction.Status.Change.Commit != nil &&
+			prevTransaction.Status.Change.Commit.State > configapi.TransactionPhaseStatus_IN_PROGRESS, nil
+	}
+	return prevTransaction.Status.Rollback.Commit != nil &&
+		prevTransaction.Status.Rollback.Commit.State == configapi.TransactionPhaseStatus_COMPLETE, nil
 }
 
 func (r *Reconciler) applyValues(ctx context.Context, transaction *configapi.Transaction, configuration *configapi.Configuration, values map[string]configapi.PathValue) (bool, error) {
